@@ -5,6 +5,7 @@ package main
 // fidelity facts of the grammar), and the grammar parts of C10.
 
 import (
+	"os"
 	"golang.org/x/tools/go/ssa"
 	"fmt"
 	"go/ast"
@@ -48,6 +49,7 @@ func init() {
 		checkActionTyping(r, ga, "c15")
 		checkKeywordBoundary(r, ga, "c15")
 		checkEngineInvariants(r, prog, "c15")
+		checkPegCombinators(r, prog, "c15")
 		checkBinaryActions(r, ga, "c15")
 		// (c) the actions build the prescribed nodes: selector path parts, operator constants, literal text
 		r.importing = "C07"
@@ -186,6 +188,9 @@ func checkAnchoring(r *Run, ga *GA) {
 }
 
 func entrypointIsFirstRule(prog *Program) bool {
+	if entrypointIsFirstRuleSSA(prog) {
+		return true
+	}
 	fd := funcDecl(prog.Grammar, "", "newParser")
 	if fd == nil {
 		return false
@@ -296,7 +301,12 @@ func checkDispatch(r *Run, prog *Program, ga *GA) {
 	}
 	r.Floor("c15.dispatch", 10)
 	for _, tn := range setKeys(used) {
-		r.Check("c15.dispatch", "node-type:"+tn, prog.pos(fd.Pos()), arms[tn], "table nodes of type *"+tn+" have no arm in parseExpr's type switch (a recovered panic would reject valid input)")
+		okArm := arms[tn]
+		if !okArm {
+			// not an arm of a type switch: decided on the paths of parseExpr with the node's dynamic type assumed
+			okArm = dispatchReaches(prog, tn)
+		}
+		r.Check("c15.dispatch", "node-type:"+tn, prog.pos(fd.Pos()), okArm, "table nodes of type *"+tn+" have no arm in parseExpr's type switch (a recovered panic would reject valid input)")
 	}
 	// rules are registered under their name and looked up by the reference's name
 	// decided on the SSA of the whole grammar package, wherever the table is built: every store into a map from rule names
@@ -1564,4 +1574,117 @@ func (ga *GA) operatorValuePairing() map[string]valuePair {
 		})
 	}
 	return out
+}
+
+// dispatchReaches: with a node of dynamic type *tn, every path of parseExpr that does not stop at the budget hands the
+// node to the combinator for that type and returns what it returns.
+func dispatchReaches(prog *Program, tn string) bool {
+	if prog.SSA == nil {
+		return false
+	}
+	e := newPegEngine(prog)
+	comb := e.combinator(tn)
+	nt := prog.grammarType(tn)
+	if e.parseExpr == nil || comb == nil || nt == nil || len(e.parseExpr.Params) != 2 {
+		return false
+	}
+	ps := NewPathSim(prog)
+	ps.NoTables = true
+	ps.IfaceAssertIdentity = true
+	pNode := paramSym(e.parseExpr.Params[1])
+	ps.Seed = func(st *pstate) { st.dyn[pNode.Key()] = types.NewPointer(nt) }
+	within := map[*ssa.Function]bool{e.parseExpr: true}
+	ps.Inline = func(c *ssa.Function) bool {
+		if c == comb || c.Pkg != prog.GrammarSSA || e.combinatorOf(c) {
+			return false // (another combinator: the node went to the wrong one)
+		}
+		if within[c] {
+			return true
+		}
+		if prog.contextOnly(c, func(f *ssa.Function) bool { return within[f] }) || onlyEnteredFrom(prog, c, map[string]bool{e.parseExpr.Name(): true}, 2) {
+			within[c] = true
+			return true
+		}
+		return false
+	}
+	n := 0
+	for _, sm := range ps.Run(e.parseExpr) {
+		if sm.Ret == nil || len(sm.Results) != 2 {
+			continue // the budget panic
+		}
+		n++
+		calls := sm.callsTo(comb)
+		if os.Getenv("VERIF_TRACE") != "" {
+			fmt.Println("TRACE dispatch", tn, len(calls), sm.St.trail, sm.Describe())
+			for _, ev := range sm.Events() {
+				if ev.Instr != nil {
+					fmt.Println("   ev", ev.Callee, ev.Inlined, ev.Resolved, callName(ev.Instr.Common()))
+				}
+			}
+		}
+		if len(calls) != 1 {
+			return false
+		}
+		res := calls[0].Res
+		if res == nil || !(sm.Results[0].K == sRes && sm.Results[0].A.Key() == res.Key() && sm.Results[1].K == sRes && sm.Results[1].A.Key() == res.Key()) {
+			return false
+		}
+	}
+	return n > 0
+}
+
+// entrypointIsFirstRuleSSA: the constructor of the parser (or a part of it) stores (*g.rules[0]).name into the
+// parser's entrypoint field.
+func entrypointIsFirstRuleSSA(prog *Program) bool {
+	if prog.SSA == nil || prog.GrammarSSA == nil {
+		return false
+	}
+	np := prog.GrammarSSA.Func("newParser")
+	if np == nil {
+		return false
+	}
+	ok := false
+	for _, fa := range prog.FieldAccesses(prog.ModuleFuncs()) {
+		if fa.Kind != "write" || fa.Field != "entrypoint" || fa.Struct == nil || fa.Struct.Obj().Name() != "parser" || !ctorPart(prog, np, fa.Fn) {
+			continue
+		}
+		// *(&(*(&(*(&(*g).rules))[0])).name)
+		ld, isLd := fa.Val.(*ssa.UnOp)
+		if !isLd {
+			return false
+		}
+		fn, isFA := ld.X.(*ssa.FieldAddr)
+		if !isFA || fieldName(fn.X.Type(), fn.Field) != "name" {
+			return false
+		}
+		el, isEl := fn.X.(*ssa.UnOp)
+		if !isEl {
+			return false
+		}
+		ia, isIA := el.X.(*ssa.IndexAddr)
+		if !isIA {
+			return false
+		}
+		c, isC := ia.Index.(*ssa.Const)
+		if !isC || c.Value == nil || c.Value.ExactString() != "0" {
+			return false
+		}
+		rl, isRl := ia.X.(*ssa.UnOp)
+		if !isRl {
+			return false
+		}
+		rf, isRF := rl.X.(*ssa.FieldAddr)
+		if !isRF || fieldName(rf.X.Type(), rf.Field) != "rules" {
+			return false
+		}
+		gl, isGl := rf.X.(*ssa.UnOp)
+		if !isGl {
+			return false
+		}
+		if g, isG := gl.X.(*ssa.Global); !isG || g.Pkg != prog.GrammarSSA {
+			return false
+		}
+		ok = true
+	}
+	return ok
 }
